@@ -231,8 +231,8 @@ class Filtration(PoupoolActor):
         self.__speed_standby = 1
         self.__speed_overflow = 4
         self.__overflow_in_comfort = False
-        self.__backwash_backwash_duration = 120
-        self.__backwash_rinse_duration = 60
+        self.__backwash_backwash_duration = timedelta(seconds=120)
+        self.__backwash_rinse_duration = timedelta(seconds=60)
         self.__backwash_period = 30
         self.__backwash_last = datetime.fromtimestamp(0)
         # Initialize the state machine
